@@ -94,10 +94,10 @@ func init() {
 			"decodes exactly the operand widths that Make encodes, every emit site passes the defined number of operands (R-OPTABLE); operands are " +
 			"range-checked before they are narrowed to 16 bits (R-NARROW); every placeholder jump is patched on every success path (R-JUMPPATCH); " +
 			"the compiler rejects node kinds it cannot translate instead of leaving the operand stack inconsistent (R-EXHAUST/Compile); every computed index into " +
-			"the storage of a VM value is bounded by the length of that same storage (R-CONTAINERIDX); the slot discipline of the symbol table (R-SLOTMAX).",
+			"the storage of a VM value is bounded by the length of that same storage (R-CONTAINERIDX), and the VM's index normalisers are proved to return positions within bounds (R-IDXPOST); the slot discipline of the symbol table (R-SLOTMAX).",
 		NotDecided:  "Stack balance in general, symbol-table histories (slot arithmetic), host crashes from value-level arithmetic.",
 		Assumptions: []string{"the VM dispatch is the switch over Opcode with the most cases in (*VM).Run", "ip is the instruction pointer variable of Run"},
-		Rules:       []*Rule{ruleOpTable, ruleNarrow, ruleJumpPatch, exhaustRule("Compile", 20), ruleLoopVarScope, ruleVMValues, f2iRule("pkg/bytecode", 2), ruleSlotMax, containerIdxRule("pkg/bytecode", 3)},
+		Rules:       []*Rule{ruleOpTable, ruleNarrow, ruleJumpPatch, exhaustRule("Compile", 20), ruleLoopVarScope, ruleVMValues, f2iRule("pkg/bytecode", 2), ruleSlotMax, containerIdxRule("pkg/bytecode", 3), idxPostRule("pkg/bytecode")},
 	})
 }
 
@@ -127,10 +127,12 @@ func init() {
 		ID: "C11",
 		Explanation: "Decides that strings are measured, indexed, sliced and iterated by code point in the evaluator (R-RUNES) and that a user " +
 			"number becomes an index only through normalizeIndex whose float→int conversion is NaN/Inf/fraction safe (R-F2I); every computed index or slice " +
-			"bound into the storage of a value is bounded by the length of that same storage (R-CONTAINERIDX); index returns a character index, never a byte offset (R-RUNES).",
-		NotDecided:  "The bounds predicate itself (-n ≤ i < n, a ≤ b ≤ n) and which element is returned.",
+			"bound into the storage of a value is bounded by the length of that same storage (R-CONTAINERIDX); index returns a character index, never a byte offset (R-RUNES); " +
+			"the normalisers' postcondition is proved from their bodies by a polyhedral forward analysis: every accepted index lies in [0, n-1], every accepted slice bound in [0, n], " +
+			"start ≤ end, and a negative index i is mapped to n+i, a non-negative one to itself (R-IDXPOST).",
+		NotDecided:  "That every index in [-n, n-1] is accepted (completeness of the bounds test), that Slice copies the elements between the proved bounds in order, error texts.",
 		Assumptions: []string{},
-		Rules:       []*Rule{runesRule("pkg/evaluator", "stringVal", 4), f2iRule("pkg/evaluator", 4), ruleEvalMisc, containerIdxRule("pkg/evaluator", 3)},
+		Rules:       []*Rule{runesRule("pkg/evaluator", "stringVal", 4), f2iRule("pkg/evaluator", 4), ruleEvalMisc, containerIdxRule("pkg/evaluator", 3), idxPostRule("pkg/evaluator")},
 	})
 }
 
